@@ -238,8 +238,9 @@ class Compiler:
         c_target_expressions = [c_target.c_expr for c_target in c_targets]
         targets_name_map = {target.name: idx for idx, target in enumerate(c_targets) if target.name is not None}
         # Only targets appearing in the SELECT targets list can be
-        # referenced by index. These are guaranteed to have a valid name.
-        n_targets = len(targets_name_map)
+        # referenced by index. These are guaranteed to have a valid
+        # name, but not a unique one: count the targets, not the names.
+        n_targets = sum(1 for target in c_targets if target.name is not None)
 
         order_spec = []
 
